@@ -94,6 +94,21 @@ def cases(ctx, tier):
         sv = rng.choice([0, 1, -1, 2, -2, 3, -3, 7, 8, -8, (1 << 63) - 1, -(1 << 63), rng.randrange(-(1 << 63), 1 << 63)])
         out.append(('mpz_kronecker_si %s %s' % (hx(a), hx(sv)), 'kronecker_si'))
         out.append(('mpz_kronecker_ui %s %x' % (hx(a), abs(sv)), 'kronecker_ui'))
+    # Lehmer-Jacobi state machine: remainder sequences whose quotients and remainder lengths vary a lot: a = k*b + r with b of 3..12
+    # limbs, r much shorter than b, k of every residue mod 4, both signs; also with an even factor (jacobi_2 entry branches)
+    for _ in range(2500 if quick else 30000):
+        bn = rng.randrange(3, 13)
+        b = nonzero_top(rng, bn, rng.choice(['uniform', 'uniform', 'runs', 'sparse'])) | 1
+        r = rng.getrandbits(rng.choice([64 * bn // 2, 64 * bn // 3, 64, 64 * (bn - 1), 5])) | rng.choice([0, 1])
+        k = rng.choice([1, 2, 3, 4, 5, 7, rng.getrandbits(rng.choice([2, 10, 64, 130]))])
+        a = (k * b + r) * rng.choice([1, -1])
+        if rng.random() < 0.2: a <<= rng.randrange(1, 130)
+        out.append(('mpz_kronecker %s %s' % (hx(a), hx(b * rng.choice([1, 1, -1]))), 'kronecker-lehmer'))
+        if rng.random() < 0.3:
+            # a = 2^j * a' with a' one limb, two-limb odd b (the entry branches of mpn_jacobi_2)
+            b2 = nonzero_top(rng, 2) | 1
+            a2 = (rng.getrandbits(64) | 1) << rng.randrange(0, 70)
+            out.append(('mpz_kronecker %s %s' % (hx(a2 * rng.choice([1, -1])), hx(b2)), 'kronecker-jacobi_2'))
     # exhaustive small symbols: every residue class and sign
     for a in range(-17, 18):
         for b in range(-17, 18):
